@@ -168,7 +168,7 @@ def bounded(repo, tier, seed):
     from bcheck.c15 import build_case
     r3 = result(sum(r[0] for r in res3), sum(r[1] for r in res3),
                 "HitEnum of the candidate rows of the real Aligner.align on generated label data with 2-6 seed peaks on neighbouring diagonals, both strands "
-                "(the C15 generators): replayed from the first pair it must reproduce the row's pairs; a row whose matching is invalid is skipped only if the "
+                "(the C15 generators, every fourth case densely labelled): replayed from the first pair it must reproduce the row's pairs; a row whose matching is invalid is skipped only if the "
                 "conflict monitor attributes it to a known conflict-resolution finding (K1/K2); each valid row is also joined with itself (what mode 'best' does when a "
                 "second-pass row wins) and the joined record's HitEnum replayed; non-trivial = >= 2 segments",
                 [build_case(seeds[0])], list(v3.values())[:4], exhaustive=False, bounds=f"{na} generated cases")
@@ -209,7 +209,7 @@ def aligner_case(case):
 
 
 def aligner_chunk(seeds):
-    from bcheck.c15 import build_case
+    from bcheck.c01 import make_case as build_case        # every fourth case densely labelled (several candidates per label)
     from bcheck.common import time_limit, CaseTimeout
     out, nt = [], 0
     for s in seeds:
